@@ -19,7 +19,7 @@ use crate::ops::{
     Reciprocal, ReduceMean, RepeatInterleave, Shape, Silu, Softmax, Swish, SymbolInfo, Transpose,
 };
 use crate::optimize::pattern_matcher::{Match, Pattern};
-use crate::value::ValueType;
+use crate::value::{DataType, ValueType};
 
 #[derive(Debug)]
 pub struct FusedOp {
@@ -1005,6 +1005,15 @@ impl PatternFusion for MatMulIntegerToFloatFusion {
             return Err(FusionError::NoMatch);
         }
 
+        // The fused operator produces a float output, so the cast must too.
+        let cast_id = pat_match.node_id("cast").unwrap();
+        let cast: &Cast = graph
+            .get_operator(cast_id)
+            .ok_or(FusionError::CheckFailed("expected Cast operator"))?;
+        if cast.to != DataType::Float {
+            return Err(FusionError::NoMatch);
+        }
+
         Ok(MatMulIntegerToFloat::default())
     }
 }
@@ -1028,7 +1037,9 @@ impl PatternFusion for ConvIntegerToFloatFusion {
         Pattern::unary_op(
             "Cast",
             Pattern::operator("ConvInteger", [x, w, x_zero, w_zero]).with_name("conv"),
-        ) * scale
+        )
+        .with_name("cast")
+            * scale
     }
 
     fn inputs(&self) -> &[&str] {
@@ -1045,6 +1056,15 @@ impl PatternFusion for ConvIntegerToFloatFusion {
 
         let is_scalar = matches!(scale_shape.as_ref(), [] | [Dimension::Fixed(1)]);
         if !is_scalar {
+            return Err(FusionError::NoMatch);
+        }
+
+        // The fused operator produces a float output, so the cast must too.
+        let cast_id = pat_match.node_id("cast").unwrap();
+        let cast: &Cast = graph
+            .get_operator(cast_id)
+            .ok_or(FusionError::CheckFailed("expected Cast operator"))?;
+        if cast.to != DataType::Float {
             return Err(FusionError::NoMatch);
         }
 
